@@ -26,6 +26,7 @@ RULE = ('one evaluation = one seeded simulated run: either 2-3 clients adding dy
 RULE += ' ' + 'In a third of the multi-object Averager runs and of the multi-process throttle runs every second object is handed over by a pickle round trip instead of opening the directory.'
 RULE += ' ' + 'In 30 % of the multi-process throttle runs one calling process is killed at a seeded point after decorating; the survivors must make all their calls.'
 RULE += ' ' + "In 40 % of the multi-process throttle runs the processes' functions carry different module names under the one name= argument."
+RULE += ' ' + 'A fifth of the throttle runs use JSONDisk.'
 ASSUMPTIONS = ['throttle is given time_func/sleep_func bound to the virtual clock (the seam the recipe offers); a virtual sleep lasts at least the requested time plus >= 1 microsecond',
                'Averager values are dyadic rationals so sums are exact in any order']
 PROBES = ('throttle_delayed', 'throttle_calls', 'throttle_raising_calls', 'throttle_across_processes', 'throttle_after_restart', 'avg_pops', 'lock_wait', 'handed_over_by_pickle', 'caller_killed', 'same_name_other_module', 'json_disk')
